@@ -49,6 +49,9 @@ type c33Case struct {
 	// handle g mod Handles. Several handles are what several servers in one
 	// process, or a re-created backend, amount to.
 	Handles int `json:"handles,omitempty"`
+	// Long: a long run of one process — G in {1,2,4} goroutines (1 = a purely sequential history) doing
+	// G*U = 2^k+1 uploads in all, k drawn up to a tier-dependent bound ("for any number of uploads").
+	Long bool `json:"long,omitempty"`
 }
 
 const bucket = "verif-bucket"
@@ -57,17 +60,26 @@ const bucket = "verif-bucket"
 
 type seenPut struct {
 	key     string
-	upload  string // payload tag "p<proc>g<g>u<u>"
+	upload  string // payload tag "c<case serial>p<proc>g<g>u<u>": unique over the life of this test process
 	arrival time.Time
 }
 
+// fakeStore is one bucket that lives as long as the test process. puts are the
+// writes of the case being run; ledger remembers, for every key ever written,
+// which upload wrote it first — the bucket does not forget objects between
+// cases, and "no other upload has used" the key is a statement about all of them.
 type fakeStore struct {
-	srv  *httptest.Server
-	mu   sync.Mutex
-	puts []seenPut
+	srv    *httptest.Server
+	mu     sync.Mutex
+	puts   []seenPut
+	ledger map[string]string
+	// counts of distinct uploads per backend over the life of the process, by where they were issued
+	inProc map[string]int
 }
 
-var uploadTag = regexp.MustCompile(`<<(p\d+g\d+u\d+)>>`)
+var uploadTag = regexp.MustCompile(`<<(c\d+p\d+g\d+u\d+)>>`)
+
+var caseSerial int // bumped by every runC33 (Run is called sequentially)
 
 func (f *fakeStore) record(key string, body []byte, at time.Time) {
 	tag := ""
@@ -193,7 +205,7 @@ var c33Schema = arrow.NewSchema([]arrow.Field{{Name: "value", Type: arrow.Primit
 
 // uploadStorm releases G goroutines at once (and not before startAt), each
 // doing U uploads; returns the number of Upload calls that reported an error.
-func uploadStorm(st vgirpc.ExternalStorage, proc, G, U int, startAt time.Time, lockstep bool, more ...vgirpc.ExternalStorage) (errs int, firstErr string) {
+func uploadStorm(st vgirpc.ExternalStorage, serial, proc, G, U int, startAt time.Time, lockstep bool, more ...vgirpc.ExternalStorage) (errs int, firstErr string) {
 	handles := append([]vgirpc.ExternalStorage{st}, more...)
 	var wg sync.WaitGroup
 	var mu sync.Mutex
@@ -219,7 +231,7 @@ func uploadStorm(st vgirpc.ExternalStorage, proc, G, U int, startAt time.Time, l
 			defer wg.Done()
 			payloads := make([][]byte, U)
 			for u := range payloads {
-				payloads[u] = []byte(fmt.Sprintf("ARROW-PAYLOAD <<p%dg%du%d>>", proc, g, u))
+				payloads[u] = []byte(fmt.Sprintf("ARROW-PAYLOAD <<c%dp%dg%du%d>>", serial, proc, g, u))
 			}
 			<-barrier
 			for u := 0; u < U; u++ {
@@ -264,6 +276,7 @@ const childEnv = "VERIF_C33_CHILD"
 type childSpec struct {
 	Backend  string `json:"backend"`
 	Endpoint string `json:"endpoint"`
+	Serial   int    `json:"serial"`
 	Proc     int    `json:"proc"`
 	G        int    `json:"g"`
 	U        int    `json:"u"`
@@ -283,7 +296,7 @@ func TestMain(m *testing.M) {
 			fmt.Fprintln(os.Stderr, "child backend:", err)
 			os.Exit(3)
 		}
-		uploadStorm(st, s.Proc, s.G, s.U, time.Unix(0, s.StartNs), s.Lockstep)
+		uploadStorm(st, s.Serial, s.Proc, s.G, s.U, time.Unix(0, s.StartNs), s.Lockstep)
 		os.Exit(0)
 	}
 	os.Exit(m.Run())
@@ -294,7 +307,7 @@ func genC33(t *rapid.T) c33Case {
 	c.Backend = []string{"s3", "gcs"}[rapid.IntRange(0, 1).Draw(t, "backend")]
 	c.Lockstep = rapid.IntRange(0, 2).Draw(t, "lockstep") != 0
 	c.Handles = []int{1, 1, 1, 2, 3}[rapid.IntRange(0, 4).Draw(t, "handles")]
-	c.G = []int{2, 4, 8, 16, 32, 64, 128, 256}[rapid.IntRange(0, 7).Draw(t, "goroutines")]
+	c.G = []int{2, 4, 8, 16, 32, 64, 128, 256, 1}[rapid.IntRange(0, 8).Draw(t, "goroutines")] // 1 = a purely sequential history
 	maxU := 2048 / c.G
 	if c.Backend == "gcs" {
 		maxU = 1024 / c.G
@@ -306,7 +319,24 @@ func genC33(t *rapid.T) c33Case {
 		maxU = 24
 	}
 	c.U = rapid.IntRange(1, maxU).Draw(t, "uploads_each")
-	if os.Getenv("VERIF_TIER") == "thorough" && rapid.IntRange(0, 3).Draw(t, "procs") == 0 {
+	thorough := os.Getenv("VERIF_TIER") == "thorough"
+	if c.Backend == "s3" && rapid.IntRange(0, 9).Draw(t, "long") == 0 {
+		// a long run: 2^k+1 uploads in all, issued by 1 (purely sequential), 2 or 4 goroutines. The bound on k is what
+		// the tier can afford: 2049 quick, 8193 thorough. A sequential S3 upload against the fake costs 1-3 ms; a GCS
+		// one ~80 ms (the SDK looks for credentials to sign the GET URL on every call), so GCS gets no long runs: its
+		// sequential histories are the G=1 cases of <= 24 uploads. Beyond the bound, the process-lifetime ledger (see
+		// runC33) is what covers "any number of uploads".
+		c.Long = true
+		c.G = []int{1, 1, 2, 4}[rapid.IntRange(0, 3).Draw(t, "long_goroutines")]
+		maxK := 11
+		if thorough {
+			maxK = 13
+		}
+		n := 1<<rapid.IntRange(6, maxK).Draw(t, "long_log2") + 1
+		c.U = (n + c.G - 1) / c.G
+		return c
+	}
+	if thorough && rapid.IntRange(0, 3).Draw(t, "procs") == 0 {
 		c.Procs = 4
 		if c.G > 64 {
 			c.G = 64
@@ -318,6 +348,8 @@ func genC33(t *rapid.T) c33Case {
 func runC33(c c33Case) (out lib.Outcome) {
 	f := theFake()
 	f.take()
+	caseSerial++
+	serial := caseSerial
 	out.Label("backend:" + c.Backend)
 	out.Label(fmt.Sprintf("goroutines:%d", c.G))
 	out.Label(fmt.Sprintf("processes:%d", c.Procs))
@@ -338,12 +370,12 @@ func runC33(c c33Case) (out lib.Outcome) {
 			out.Label("inconclusive:backend-construction-failed")
 			return
 		}
-		errs, firstErr = uploadStorm(st, 0, c.G, c.U, time.Now(), c.Lockstep, hs[1:]...)
+		errs, firstErr = uploadStorm(st, serial, 0, c.G, c.U, time.Now(), c.Lockstep, hs[1:]...)
 	} else {
 		startAt := time.Now().Add(1500 * time.Millisecond)
 		var cmds []*exec.Cmd
 		for p := 0; p < c.Procs; p++ {
-			spec, _ := json.Marshal(childSpec{Backend: c.Backend, Endpoint: f.srv.URL, Proc: p, G: c.G, U: c.U, StartNs: startAt.UnixNano(), Lockstep: c.Lockstep})
+			spec, _ := json.Marshal(childSpec{Backend: c.Backend, Endpoint: f.srv.URL, Serial: serial, Proc: p, G: c.G, U: c.U, StartNs: startAt.UnixNano(), Lockstep: c.Lockstep})
 			cmd := exec.Command(os.Args[0], "-test.run", "^$")
 			cmd.Env = append(os.Environ(), childEnv+"="+string(spec))
 			cmd.Stderr = os.Stderr
@@ -383,6 +415,54 @@ func runC33(c c33Case) (out lib.Outcome) {
 			byKey[p.key] = map[string]bool{}
 		}
 		byKey[p.key][p.upload] = true
+	}
+	// the bucket's whole life: a key of this case that an upload of an EARLIER case (of this process or of one of
+	// its child processes) had already written. Not reproducible from this case alone: the message names both.
+	var crossDups []string
+	f.mu.Lock()
+	if f.ledger == nil {
+		f.ledger, f.inProc = map[string]string{}, map[string]int{}
+	}
+	for _, p := range puts {
+		if p.upload == "" {
+			continue
+		}
+		id := p.upload + " (" + c.Backend + ")"
+		first, known := f.ledger[p.key]
+		switch {
+		case !known:
+			f.ledger[p.key] = id
+		case first != id && !strings.HasPrefix(first, fmt.Sprintf("c%dp", serial)):
+			// (two uploads of THIS case sharing a key are reported by the per-case oracle below)
+			crossDups = append(crossDups, fmt.Sprintf("%s <- %s of an earlier case, %s of this case", p.key, first, id))
+		}
+	}
+	ledgerSize := len(f.ledger)
+	if c.Procs <= 1 {
+		f.inProc[c.Backend] += c.G * c.U
+	}
+	inProc := f.inProc[c.Backend]
+	f.mu.Unlock()
+	out.Label("bucket-lifetime-keys:" + pow2Bucket(ledgerSize))
+	if c.Procs <= 1 {
+		// how many uploads this one process has issued through the backend so far, this case included
+		out.Label(fmt.Sprintf("process-run:%s:%s", c.Backend, pow2Bucket(inProc)))
+		if inProc > 4096 {
+			out.Label("process-run:" + c.Backend + ":beyond-4096") // the order of magnitude the quick budget affords
+		}
+	}
+	if c.Long {
+		out.Label("long-run")
+		out.Label("long-run:" + pow2Bucket(c.G*c.U))
+	}
+	if c.G == 1 && c.Procs <= 1 {
+		out.Label("sequential:" + c.Backend)
+	}
+	if len(crossDups) > 0 {
+		sort.Strings(crossDups)
+		out.Label("duplicate-key-across-cases:" + c.Backend)
+		out.Violate("C33/duplicate-key-"+c.Backend, "%d object keys written by this case (serial %d; %d uploads issued in-process through this backend so far, %d keys in the bucket) had already been written by an upload of an earlier case of the same run, e.g. %s",
+			len(crossDups), serial, inProc, ledgerSize, lib.Short(strings.Join(crossDups[:min(3, len(crossDups))], "; "), 600))
 	}
 	want := c.G * c.U * c.Procs
 	uploadsSeen := map[string]bool{}
@@ -427,6 +507,18 @@ func runC33(c c33Case) (out lib.Outcome) {
 	return
 }
 
+// pow2Bucket names the power-of-two bracket n falls into: ">4096" means 4097..8192.
+func pow2Bucket(n int) string {
+	if n <= 64 {
+		return "<=64"
+	}
+	b := 64
+	for n > 2*b {
+		b *= 2
+	}
+	return fmt.Sprintf(">%d", b)
+}
+
 func bucketCount(n int) string {
 	switch {
 	case n == 0:
@@ -441,15 +533,19 @@ func bucketCount(n int) string {
 
 var propC33 = lib.Prop[c33Case]{
 	ID: "C33",
-	Rule: "schedules: the real S3 backend (fake path-style endpoint) and GCS backend (fake emulator) with G in {2..256} goroutines released by one barrier, each doing U uploads (G*U <= 2048 for S3, <= 1024 for GCS), free-running or meeting at a barrier before every upload round; thorough also 4 OS processes released at one agreed instant against the same fake. " +
-		"Oracle: object keys observed by the fake for different uploads (payload-tagged, so SDK retransmissions do not count) are pairwise distinct. Non-trivial: two different uploads arrived at the fake < 50 us apart. Statistical search: can refute, not establish.",
+	Rule: "schedules: the real S3 backend (fake path-style endpoint) and GCS backend (fake emulator) with G in {1 (purely sequential), 2..256} goroutines released by one barrier, each doing U uploads (G*U <= 2048 for S3, <= 1024 for GCS), free-running or meeting at a barrier before every upload round; " +
+		"long runs of one process on S3: 2^k+1 uploads (k up to 11 quick, 13 thorough) issued by 1, 2 or 4 goroutines; thorough also 4 OS processes released at one agreed instant against the same fake. " +
+		"Oracle: object keys observed by the fake for different uploads (payload-tagged with case serial, process, goroutine and round, so SDK retransmissions do not count) are pairwise distinct — within the case, and against every key any earlier case of the same run wrote: the fake bucket and the test process live for the whole run, so the run as a whole is one history of well over 4096 uploads per backend. " +
+		"Non-trivial: two different uploads arrived at the fake < 50 us apart. Statistical search: can refute, not establish.",
 	Gen:          genC33,
 	Run:          runC33,
-	Essential:    []string{"backend:s3", "backend:gcs", "arrivals-within-50us", "lockstep", "free-running"},
+	Essential:    []string{"backend:s3", "backend:gcs", "arrivals-within-50us", "lockstep", "free-running", "long-run", "sequential:s3", "process-run:s3:beyond-4096"},
 	EssentialMin: 12,
 	Assumptions: []string{
 		"uploads are distinguished by a tag inside their payload; a key written twice by the same upload (an SDK retry) is not a reuse",
 		"GCS Upload returns an error after writing the object (URL signing needs credentials absent from the sandbox); the key has been observed by then",
+		"a collision with a key written by an EARLIER case of the run is a violation of the case that wrote it second; such a violation depends on the run's history and does not reproduce from the replay file alone (the message names both uploads); a single-case witness needs a long run of > 4096 uploads, which only the thorough tier draws",
+		"the number of uploads per process is bounded by the tier's budget (about 10^4 per backend quick, several 10^4 per shard thorough): a key generator whose period is longer than that is out of reach",
 	},
 }
 
